@@ -164,3 +164,130 @@ func genZtp(o *Out, rng *rand.Rand, tier string) {
 }
 
 func init() { gens["ztp"] = genZtp }
+
+// ---- interface names in relay information (spec/ZtpCircuit.tla)
+
+// circuitString draws an ASCII string from the grammar of the interface-name expressions: well-formed names of
+// every format, near misses, names embedded in other text, several names in one string, newlines.
+func circuitString(rng *rand.Rand) string {
+	num := func() string {
+		return []string{"0", "1", "3", "17", "52", "2001", "007", "9", "48", ""}[rng.Intn(10)]
+	}
+	good := []func() string{
+		func() string { return []string{"et", "xe", "ge"}[rng.Intn(3)] + "-" + num() + "/" + num() + "/" + num() + ":" + num() + "." + num() },
+		func() string { return []string{"et", "xe", "ge"}[rng.Intn(3)] + "-" + num() + "/" + num() + "/" + num() + "." + num() },
+		func() string { return []string{"et", "xe", "ge"}[rng.Intn(3)] + "-" + num() + "/" + num() + "/" + num() },
+		func() string { return "et-" + num() + "/" + num() + "/" + num() + num() + num() },
+		func() string { return "Ethernet" + num() + "/" + num() + "/" + num() },
+		func() string { return "Ethernet" + num() + ":Vlan" + num() },
+		func() string { return "Ethernet" + num() + ":" + num() },
+		func() string { return "Ethernet" + num() + "/" + num() },
+		func() string { return "Gi" + num() + "/" + num() + ":" + num() },
+		func() string { return "ae" + num() + "." + num() },
+		func() string { return "ae" + num() + num() + num() },
+		func() string { return "Port-Channel" + num() },
+		func() string { return "sw1.OSC-" + num() + "-" + num() },
+		func() string { return "sw1.OSC-" + num() + "-" + num() + "-" + num() },
+	}
+	junk := []string{"", "", "\x01\x0c", " ", "x", "\n", "Ethernet", ":", "/", ".", "-", "9", "vlan", "et-", ".OSC"}
+	s := ""
+	if rng.Intn(3) == 0 {
+		s = junk[rng.Intn(len(junk))]
+	}
+	for k := pick(rng, 1, 1, 1, 2); k > 0; k-- {
+		s += good[rng.Intn(len(good))]()
+		if rng.Intn(3) == 0 {
+			s += junk[rng.Intn(len(junk))]
+		}
+	}
+	if rng.Intn(10) == 0 { // a random edit
+		b := []byte(s)
+		if len(b) > 0 {
+			b[rng.Intn(len(b))] = "0/:.-\nE"[rng.Intn(7)]
+		}
+		s = string(b)
+	}
+	return s
+}
+
+func genZtpCircuit(o *Out, rng *rand.Rand, tier string) {
+	n := 1500
+	if tier == "thorough" {
+		n = 20000
+	}
+	safeRec := func(rec map[string]any, f func()) {
+		defer func() {
+			if r := recover(); r != nil {
+				rec["panic"] = fmt.Sprint(r)
+			}
+		}()
+		f()
+	}
+	put := func(rec map[string]any, slot, mod, port, subport, vlan string) {
+		rec["st"], rec["slot"], rec["mod"], rec["port"], rec["subport"], rec["vlan"] = "ok",
+			B([]byte(slot)), B([]byte(mod)), B([]byte(port)), B([]byte(subport)), B([]byte(vlan))
+	}
+	for i := 0; i < n; i++ {
+		// ---- DHCPv4: relay agent information with (usually) a circuit-id
+		p := randPacket4(rng, 0, nil)
+		p.Options = dhcpv4.Options{}
+		name := circuitString(rng)
+		switch rng.Intn(10) {
+		case 0: // no option 82
+		case 1: // malformed sub-options
+			p.Options[82] = append([]byte{1, byte(len(name) + 3)}, name...)
+		case 2: // remote-id only
+			p.Options[82] = append([]byte{2, byte(len(name))}, name...)
+		case 3: // circuit-id after another sub-option, and a second circuit-id (instances concatenate)
+			raw := append([]byte{2, 2, 'r', 'r', 1, byte(len(name))}, name...)
+			p.Options[82] = append(raw, 1, 1, '7')
+		default:
+			p.Options[82] = append([]byte{1, byte(len(name))}, name...)
+		}
+		q, err := dhcpv4.FromBytes(p.ToBytes())
+		if err != nil {
+			continue
+		}
+		rec := map[string]any{"op": "Circ4", "pkt": proj4(q), "st": "err"}
+		safeRec(rec, func() {
+			c, err := ztpv4.ParseCircuitID(q)
+			if err == nil && c != nil {
+				put(rec, c.Slot, c.Module, c.Port, c.SubPort, c.Vlan)
+			}
+		})
+		o.Emit(rec, "circuit-id-v4", append([]byte("c4"), q.ToBytes()...), len(q.Options) > 0)
+
+		// ---- DHCPv6: remote-id / interface-id of the innermost relay
+		m := &dhcpv6.Message{MessageType: dhcpv6.MessageTypeSolicit}
+		copy(m.TransactionID[:], randBytes(rng, 3))
+		var d dhcpv6.DHCPv6 = m
+		depth := rng.Intn(4)
+		for k := 0; k < depth; k++ {
+			r, _ := dhcpv6.EncapsulateRelay(d, dhcpv6.MessageTypeRelayForward, rip6(rng), rip6(rng))
+			if rng.Intn(3) != 0 {
+				r.AddOption(&dhcpv6.OptRemoteID{EnterpriseNumber: 30065, RemoteID: []byte(circuitString(rng))})
+			}
+			if rng.Intn(2) == 0 {
+				r.AddOption(dhcpv6.OptInterfaceID([]byte(circuitString(rng))))
+			}
+			if rng.Intn(10) == 0 {
+				r.Options.Del(dhcpv6.OptionRelayMsg)
+			}
+			d = r
+		}
+		d2, err := dhcpv6.FromBytes(d.ToBytes())
+		if err != nil {
+			continue
+		}
+		rec = map[string]any{"op": "Circ6", "msg": proj6(d2), "st": "err"}
+		safeRec(rec, func() {
+			c, err := ztpv6.ParseRemoteID(d2)
+			if err == nil && c != nil {
+				put(rec, c.Slot, c.Module, c.Port, c.SubPort, c.Vlan)
+			}
+		})
+		o.Emit(rec, "remote-id-v6", append([]byte("c6"), d2.ToBytes()...), depth > 0)
+	}
+}
+
+func init() { gens["ztpc"] = genZtpCircuit }
